@@ -330,6 +330,16 @@ package regclient
 //@   entry-assume !$handlerRegistered
 //@   on-call mapupdate:handlers: $handlerRegistered = true
 //@   ensures another-pass-for-every-new-handler: err == nil && $handlerRegistered ==> trd.handleAdded
+//   (the function may raise the flag once at its end, as it does now, or at each registration:
+//   candidate invariants, kept only where they are inductive, carry the second form through the loops)
+//@   loop 0 ()
+//@     candidate flag-follows-registration: $handlerRegistered ==> trd.handleAdded
+//@   loop 1 ()
+//@     candidate flag-follows-registration-1: $handlerRegistered ==> trd.handleAdded
+//@   loop 2 ()
+//@     candidate flag-follows-registration-2: $handlerRegistered ==> trd.handleAdded
+//@   loop 3 ()
+//@     candidate flag-follows-registration-3: $handlerRegistered ==> trd.handleAdded
 //@ func (*RegClient).imageImportOCIHandleManifest{$1,$2,$3}
 //@   prop C09
 //@   on-call mapupdate:handlers: $handlerRegistered = true
